@@ -67,6 +67,8 @@ def gen_exchange(rng):
 
 
 class Server:
+    feeders = []
+
     def __init__(self, ex):
         self.ex = ex
         self.buf = b''
@@ -76,7 +78,7 @@ class Server:
         self.buf += data
         if not self.done and b'\r\n\r\n' in self.buf:
             self.done = True
-            asyncio.ensure_future(self.respond(conn))
+            Server.feeders.append(asyncio.ensure_future(self.respond(conn)))
 
     async def respond(self, conn):
         data = self.ex['header'] + self.ex['body']
@@ -104,7 +106,13 @@ def run_exchange(ex, seed):
            'log': False, 'revisit': False, 'software': None, 'extra': []}
     state = {}
 
+    class Feeders:
+        """a live view: 'done' once the server has started and finished responding"""
+        def done(self):
+            return bool(Server.feeders) and all(f.done() for f in Server.feeders)
+
     async def go():
+        Server.feeders = []
         net = fakenet.FakeNet()
         net.default = lambda: Server(ex)
         with net:
@@ -119,12 +127,12 @@ def run_exchange(ex, seed):
                 with session:
                     request = Request(ex['url'])
                     t = asyncio.ensure_future(compat._ensure(session.start(request)))
-                    if not await fakenet.settle(t, [], extra=300):
+                    if not await fakenet.settle(t, [Feeders()], extra=300):
                         t.cancel()
                         raise TimeoutError('start stalled')
                     t.result()
                     t = asyncio.ensure_future(compat._ensure(session.download(io.BytesIO())))
-                    if not await fakenet.settle(t, [], extra=300):
+                    if not await fakenet.settle(t, [Feeders()], extra=300):
                         t.cancel()
                         raise TimeoutError('download stalled')
                     t.result()
